@@ -1,7 +1,7 @@
 (* C18 — CurlyRouter and RouterJSR311 agree wherever both are specified. *)
 From Model Require Import Str Sexp Http Template Table Curly DetectRoute Jsr311 Router.
 From Spec Require Import RouteSpec RankSpec.
-From Proofs Require Import RouterProofs JsrOutcomeProofs AgreeProofs.
+From Proofs Require Import RouterProofs JsrOutcomeProofs AgreeProofs SameServiceProofs.
 
 (* The full statement: on the common fragment every request has the same outcome under
    both routers. *)
@@ -81,6 +81,36 @@ Theorem C18_agree_unclaimed : C18_agree_unclaimed_statement.
 Proof. exact routers_agree_unclaimed. Qed.
 Print Assumptions C18_agree_unclaimed.
 
+(* ... and for literal root paths both routers DO hand the request to the same service (the one
+   with the longest root that is a segment prefix of the URL: greatest score under CurlyRouter,
+   most literal characters under RouterJSR311), so that premise goes: for tables whose roots
+   consist of non-empty literal tokens and are pairwise different (roots_literal,
+   roots_distinct), a cleanly segmented path, and the service CurlyRouter finds (if any)
+   satisfying the per-service premises above, the two routers agree. *)
+Definition C18_agree_literal_roots_statement : Prop :=
+  forall (O : oracles) (wss : list service) (req : request),
+    roots_literal wss = true -> roots_distinct wss = true -> c18_clean (rq_path req) = true ->
+    (forall w, detect_web_service O (tokenize (rq_path req)) wss = Some w ->
+       forallb (wf_route w) (s_routes w) = true /\ jsr_all_agree w = true
+       /\ forallb (jsr_names_agree w) (s_routes w) = true /\ c18_service_ok w = true /\ c18_chain O w req = true) ->
+    routed_equiv (route_request O {| t_router := Curly; t_services := wss |} req)
+                 (route_request O {| t_router := Jsr311; t_services := wss |} req).
+Theorem C18_agree_literal_roots : C18_agree_literal_roots_statement.
+Proof. exact routers_agree_literal_roots. Qed.
+Print Assumptions C18_agree_literal_roots.
+
+Definition C18_same_service_statement : Prop :=
+  forall (O : oracles) (wss : list service) (p : str),
+    roots_literal wss = true -> roots_distinct wss = true -> c18_clean p = true ->
+    match detect_web_service O (tokenize p) wss, detect_dispatcher O p wss with
+    | Some w, Some (w', _) => w = w'
+    | None, None => True
+    | _, _ => False
+    end.
+Theorem C18_same_service : C18_same_service_statement.
+Proof. exact same_service. Qed.
+Print Assumptions C18_same_service.
+
 (* the premises hold on a concrete table with overlapping routes, for a request that is
    served (/u/me beats /u/{id}), one that binds a parameter, and one answered 405 *)
 Example C18_agree_example :
@@ -92,7 +122,8 @@ Example C18_agree_example :
   /\ (exists fin, detect_dispatcher O0 (rq_path req) [w; w2] = Some (w, fin))
   /\ forallb (wf_route w) (s_routes w) = true
   /\ jsr_all_agree w = true /\ forallb (jsr_names_agree w) (s_routes w) = true
-  /\ c18_service_ok w = true /\ c18_clean (rq_path req) = true /\ c18_chain O0 w req = true.
+  /\ c18_service_ok w = true /\ c18_clean (rq_path req) = true /\ c18_chain O0 w req = true
+  /\ roots_literal [w; w2] = true /\ roots_distinct [w; w2] = true.
 Proof.
   intros w w2 p Hp. cbn in Hp. destruct Hp as [<-|[<-|[<-|[]]]]; vm_compute; repeat split; eexists; reflexivity.
 Qed.
